@@ -642,7 +642,7 @@ def run_check(pid, tier, jobs=None, only=None, keep=False):
     t0 = time.time()
     seed = int(os.environ.get("VERIF_SEED", "0") or 0)
     mod = load_checks(pid)
-    groups = [g for g in mod.GROUPS if tier == "thorough" or g.tier == "quick"]
+    groups = [g for g in mod.GROUPS if g.tier != "off" and (tier == "thorough" or g.tier == "quick")]
     if only:
         groups = [g for g in groups if re.search(only, g.name)]
     findings = [f for f in load_findings() if f.get("property") == pid and f.get("status") == "open"]
@@ -869,8 +869,8 @@ def write_evidence(pid, tier, seed, mod, ev_groups, wall, nviol, known=(), broke
         not_under_contract=list(getattr(mod, "NOT_COVERED", [])),
         samples=samples or ["(no obligations)"],
         explanation=getattr(mod, "EXPLANATION", ""),
-        evaluations=max(1, obligations), distinct_nontrivial=max(2, len(funcs)),
-        rule="one evaluation = one cbmc obligation of one harness; distinct_nontrivial = number of distinct real functions under contract",
+        evaluations=max(1, obligations + sum(s.get("obligations", 0) for s in bounded)), distinct_nontrivial=max(2, len(funcs)),
+        rule="one evaluation = one cbmc obligation of one harness decided in this run (unbounded and bounded groups; 'obligations'/'discharged' count the unbounded ones only); distinct_nontrivial = number of distinct real functions under contract",
     )
     if broken:
         cov["broken"] = broken
